@@ -7,7 +7,7 @@ from props import rwcommon as rc
 ID = "C03"
 PROP_FILE = "props/C03.v"
 COQ_TARGETS = ["props/C03.v"]
-THEOREMS = ["C03_proj_sound", "C03_only_subscribed", "C03_kept_sites_all"]
+THEOREMS = ["C03_proj_sound", "C03_only_subscribed", "C03_kept_sites_all", "C03_rw_frag_canonical", "C03_rw_frag_proj"]
 TRUSTED_BASE = [
     "Coq 8.16.1 kernel, vm_compute for the per-pair projection certificates",
     "tools/impl/astexport.py (AST -> Coq term, interning shared by the two rewrites, id canonicalisation), tools/translators/gen_pyast.py + gen_events.py",
